@@ -100,6 +100,7 @@ def correspond(comp, recs):
             idx.append(i)
         except ValueError as e:
             if str(e) == "skipped":
+                res[i] = None      # no per-record model counterpart
                 continue
             res[i] = ["record cannot be encoded for the model: %s: %s" % (type(e).__name__, e)]
         except Exception as e:
@@ -221,7 +222,9 @@ def main_check(pid, tier, seed, write_evidence=True):
             cases = []
             if hasattr(mod, "corpus"):
                 cases.extend(mod.corpus(pid))
-            cases.extend(mod.gen(rng, n, **spec.get("gen_args", {}).get(comp, {})))
+            gargs = dict(spec.get("gen_args", {}).get(comp, {}))
+            gargs.update(spec.get("gen_args_" + tier, {}).get(comp, {}))
+            cases.extend(mod.gen(rng, n, **gargs))
             recs = run_cases(comp, cases, pool)
             mism = correspond(comp, recs)
             oracle = mod.ORACLES[pid]
@@ -237,10 +240,12 @@ def main_check(pid, tier, seed, write_evidence=True):
                 except Exception as e:
                     v = ["oracle raised %s: %s" % (type(e).__name__, e)]
                 if r.foreign:
-                    m = list(m) + ["random source outside the recorded primitives: %s" % (r.foreign[:2],)]
-                if not m:
+                    m = list(m or []) + ["random source outside the recorded primitives: %s" % (r.foreign[:2],)]
+                if m is None:
+                    m = []
+                elif not m:
                     validated += 1
-                else:
+                if m:
                     cstat["mismatches"] += 1
                     broken_corr.append((comp, r, m))
                 if v:
@@ -268,7 +273,9 @@ def main_check(pid, tier, seed, write_evidence=True):
                 oracle = mod.ORACLES[pid]
                 rng = np.random.RandomState((seed * 1000003 + ci * 7919 + 99991) % (2**31 - 1))
                 budget = max(nq * 10, 2000) if tier == "quick" else nt * 5
-                cases = list(mod.gen(rng, budget, **spec.get("gen_args", {}).get(comp, {})))
+                gargs = dict(spec.get("gen_args", {}).get(comp, {}))
+                gargs.update(spec.get("gen_args_" + tier, {}).get(comp, {}))
+                cases = list(mod.gen(rng, budget, **gargs))
                 pool2 = pool or mp.get_context("fork").Pool(min(16, os.cpu_count() or 1))
                 try:
                     recs = run_cases(comp, cases, pool2)
